@@ -7,7 +7,12 @@ from harness import gen, histcorr, semoracle
 ID = 'C19'
 TRANSLATORS = []
 PROPERTY_FILE = 'Properties/C19.v'
-THEOREMS = []
+THEOREMS = ['C19_rename_outcome', 'C19_rename_ok_iff', 'C19_rename_references', 'C19_rename_semantics',
+            'C19_rename_semantics_renamed_assignment', 'C19_rename_truth_table',
+            'C19_replace_inputs_state', 'C19_replace_inputs_well_formed', 'C19_replace_inputs_cofactor',
+            'C19_replace_inputs_cofactor_assignment',
+            'C19_remove_gate_outcome', 'C19_no_users_iff', 'C19_remove_gate_state', 'C19_remove_gate_well_formed',
+            'C19_remove_gate_semantics', 'C19_example']
 PARTIAL = {}
 LEVEL_TEXT = 'pending'
 LEVEL_NOTE = 'pending'
